@@ -94,9 +94,18 @@ def run(gen_path, rlimit=None, seed=None, timeout=420, extra=None, threads=None)
             continue
         if d.get("message", "").startswith("aborting due to"):
             continue
-        spans = [dict(file=s["file_name"], line=s["line_start"], col=s["column_start"], label=s.get("label"), primary=s["is_primary"],
-                      text=(s.get("text") or [{}])[0].get("text", "").strip() if s.get("text") else "")
-                 for s in d.get("spans", [])]
+        def _site(s):
+            # a span inside a macro of std / vstd (unreachable!(), vec![], assert!..): report the place where the macro is used
+            cur = s
+            while cur.get("expansion") and cur["expansion"].get("span"):
+                cur = cur["expansion"]["span"]
+            return cur
+        spans = []
+        for s0 in d.get("spans", []):
+            s = _site(s0)
+            spans.append(dict(file=s["file_name"], line=s["line_start"], col=s["column_start"], label=s0.get("label"), primary=s0["is_primary"],
+                              text=(s.get("text") or [{}])[0].get("text", "").strip() if s.get("text") else "",
+                              macro=(os.path.basename(s0["file_name"]) if s is not s0 else None)))
         res["diagnostics"].append(dict(message=d["message"], spans=spans, rendered=d.get("rendered", ""),
                                        children=[c.get("message") for c in d.get("children", [])]))
     return res
@@ -164,6 +173,12 @@ def attribute(diag, g, gen_file):
                     props = list(i.get("props") or [])
                     name = "ensures(trait-spec:%s)" % re.sub(r"\s+", " ", s["text"])[:50]
                     break
+    elif kind == "call-requires" and re.search(r"\b(unreachable|panic|unimplemented|todo)!", detail.get("text", "")) and clause_span is None:
+        # the `requires false` of a panicking macro: the arm is reachable
+        kind = "unreachable"
+        name = "unreachable[%s]" % re.sub(r"\s+", " ", detail.get("text", ""))[:60]
+        if fn in g.fns and g.fns[fn].get("safety"):
+            props = list(g.fns[fn]["safety"])
     elif kind == "call-requires":
         callee = None
         if clause_span is not None:
